@@ -199,6 +199,21 @@ func f(closed <-chan struct{}) {
 }
 func g() bool { return true }`, wantFail: true},
 
+	{name: "refuse_wait_inside_shutdown_case", src: `package p
+func f(closed <-chan struct{}, cancelled <-chan struct{}) {
+	for {
+		select {
+		case <-closed:
+			g()
+			<-cancelled
+			return
+		case <-cancelled:
+			return
+		}
+	}
+}
+func g() {}`, wantFail: true},
+
 	{name: "refuse_goto", src: `package p
 func f(closed <-chan struct{}) {
 L:
